@@ -148,8 +148,8 @@ pub fn cases() -> Vec<Case> {
 pub fn run(tier: Tier) -> Report {
     let mut rep = Report::new("C09");
     let cs = cases();
-    let cols = colours(tier.pick(8, 24));
-    let fine = colours(tier.pick(8, 48));
+    let cols = colours(tier.pick(10, 24));
+    let fine = colours(tier.pick(16, 48));
     let acc = par_chunks(cs.len() as u64, 8, |acc, lo, hi| {
         for i in lo..hi {
             let c = &cs[i as usize];
@@ -170,7 +170,7 @@ pub fn run(tier: Tier) -> Report {
     let nss = cs.iter().filter(|c| c.ss != (0, 0) && c.p != CP::ST428).count();
     rep.bound = format!(
         "all 7 x 14 x 10 = 980 supported (matrix, transfer, physical primaries) triples x 2 ranges x 10 depth/storage pairs = {n444} 4:4:4 configs, plus 5 subsamplings x depths {{8,10,16}} with block-constant images = {nss} configs (ST 428 run too, reported only); in-gamut images: RGB product {{i/{}}}^3 ({{i/{}}}^3 for 8..10-bit 4:4:4) + 16 near-black greys + 36 greys/primaries, encoded by the real Yuv::try_from((&Rgb,cfg))",
-        tier.pick(8, 24), tier.pick(8, 48)
+        tier.pick(10, 24), tier.pick(16, 48)
     );
     rep.rule = "Yuv::<T>::try_from((Xyb::try_from(&yuv)?, yuv.config())): width, height, config equal; every sample within max(1, 0.015*(2^n-1)) codes of the input".into();
     rep.assumptions = vec!["the continuous in-gamut set is bounded by the stated colour lattice; pointwise behaviour per C11".into()];
@@ -185,7 +185,7 @@ pub fn replay(case: &Value) -> (bool, String) {
     let mut acc = Acc::default();
     // replay with the finest colour set used by either tier (a superset is not needed: the
     // violating colour lies in one of them; try both)
-    for steps in [8usize, 24, 48] {
+    for steps in [10usize, 16, 24, 48] {
         let cols = colours(steps);
         if c.wide {
             run_case::<u16>(&mut acc, 0, &c, &cols, false)
